@@ -23,7 +23,7 @@ import (
 type c12Case struct {
 	Spec   progen.Spec `json:"spec"`
 	Seeded bool        `json:"seeded"`
-	Change string      `json:"change"` // flag-tiny | flag-literals | seed | tag | edit-other | edit-same | modpath | gogarble | repeat
+	Change string      `json:"change"`  // flag-tiny | flag-literals | seed | tag | edit-other | edit-same | modpath | gogarble | repeat
 	EditAt int         `json:"edit_at"` // package index edited (edit-*)
 }
 
